@@ -8,6 +8,7 @@ func init() {
 			"(incomplete gamma) shapes in [0.01,101] and 2-8 increasing x per case among 0, the branch boundary max(1,shape)·(1±{0,1e-15..0.1}), 1, shape, tiny (>=1e-300), large (<=1e5), around the shape, log-uniform; " +
 			"(discrete gamma) shapes in [0.01,100] x 2..32 categories, GenerateRates on 0-60 sites with every gamma/discrete flag combination; " +
 			"(weights for alignments that are not freshly built) generated contents of 2-6 rows x 3-40 (120 thorough) columns with constant, tied and all-gap columns; in two cases out of three the object is produced by a drawn provenance chain of up to 3 public operations ending on exactly that content (clone, touch, rename-cycle, cut-window, select-sites, trim-gap-ends, trim-constant-ends, drop-gap-rows, concat, append, reparse-fasta), in two cases out of three a history follows: a second object derived by Sample/SubAlign/SelectSites/Clone, a length-changing in-place operation (RemoveGapSites, TrimSequences, RemoveMajorityCharacterSites, RemoveCharacterSites; whole or ends) applied to ONE of the two and the weights drawn for the OTHER, or the operation applied to the object itself first; oracle: as many weights as every row read back by index has residues (and as the construction implies for an object no operation was applied to), each finite and > 0, sum = that number; " +
+			"(prior use of the object) one object of 2-5 rows x 3-30 (80 thorough) columns receives 2-5 weight draws (Dirichlet or gamma based builder, drawn per draw); between two draws it is edited IN PLACE by a drawn mutator: none, RemoveGapSites, TrimSequences, RemoveMajorityCharacterSites, RemoveCharacterSites (whole or ends; shorter), Concat of the initial content or of a drawn window of it (longer); in one step out of five a second, never edited object built from the same content receives a draw in between; every draw is judged by the weight-vector oracle on the rows read back by index at that moment (and on the number of sites the edits imply for none/Concat); " +
 			"(size class long vectors) a handful (30 quick) of flat weight vectors of 30 000-400 000 sites from both weight builders, Dirichlet with all parameters 1 and Dirichlet1 (total = number of values), under the weight-vector clause: one finite weight > 0 per site, sum = number of sites; " +
 			"(boundary values of the random source) 48 seeds of math/rand whose first 4096 raw outputs contain an extreme value (top 32 bits all zero / all one, Float64() < 1e-9 or > 1-1e-9; found by an offline scan of math/rand, tools/c20_hostile_seeds.go) x 6 samplers (both weight builders, Dirichlet with all parameters 1 / mixed / below 1, Dirichlet1) with enough sites for that output to be consumed, same oracles; " +
 			"(command line) goalign build weightboot on generated fasta/phylip/multi-alignment phylip/stdin inputs (FASTA in a drawn layout: wrapped lines, blank-separated blocks, CRLF, empty lines, no final newline), -n 1..25, --seed, -o (new file, or an existing file with a longer stale content). " +
@@ -35,6 +36,7 @@ func init() {
 			{Name: "incomplete-gamma", Test: "^TestIncompleteGamma$", Quick: 25000, Thorough: 120000, Shards: 4, TimeoutS: 300},
 			{Name: "discrete-gamma", Test: "^TestDiscreteGamma$", Quick: 20000, Thorough: 60000, Shards: 8, TimeoutS: 300},
 			{Name: "weights-history", Test: "^TestWeightsHistory$", Quick: 20000, Thorough: 100000, Shards: 4, TimeoutS: 300},
+			{Name: "weights-reuse", Test: "^TestWeightsReuse$", Quick: 20000, Thorough: 100000, Shards: 4, TimeoutS: 300},
 			{Name: "long-vectors", Test: "^TestLongVectors$", Quick: 30, Thorough: 200, Shards: 2, TimeoutS: 300},
 			{Name: "hostile-seeds", Test: "^TestHostileSeeds$", Quick: 1, Thorough: 1, TimeoutS: 300},
 			{Name: "cli", Test: "^TestCLI$", Quick: 400, Thorough: 2000, Shards: 4, TimeoutS: 300},
